@@ -5,131 +5,6 @@ struct Got {
     eof: bool,
 }
 
-type RFail = (&'static str, String);
-
-/// Single buffer check: `n` bytes reported for I/O capacity `a..a+cap_io` of `v`.
-fn check_single(n: usize, v: &Vec<u8>, a: usize, prelen: usize, cap_io: usize) -> Result<Vec<u8>, RFail> {
-    if n > cap_io {
-        return Err(("overlong-result", format!("{n} bytes reported for a buffer of capacity {cap_io}")));
-    }
-    let want_len = prelen.max(a + n);
-    if v.len() != want_len {
-        return Err((
-            "buf-len",
-            format!("buffer length is {} after {n} bytes were reported (length before {prelen}, offset {a})", v.len()),
-        ));
-    }
-    let r = raw(v);
-    if let Some(i) = (0..a).find(|&i| r[i] != tail(i)) {
-        return Err(("overrun", format!("byte {i} before the I/O window (starts at {a}) was modified")));
-    }
-    if let Some(i) = tail_damage(v, a + n) {
-        return Err((
-            "overrun",
-            format!("byte {i} of the buffer was modified although only {n} bytes from offset {a} were reported (capacity {})", r.len()),
-        ));
-    }
-    Ok(r[a..a + n].to_vec())
-}
-
-fn check_segs(n: usize, segs: &[&Vec<u8>]) -> Result<Vec<u8>, RFail> {
-    let total: usize = segs.iter().map(|s| s.capacity()).sum();
-    if n > total {
-        return Err(("overlong-result", format!("{n} bytes reported for vectored capacity {total}")));
-    }
-    let mut rem = n;
-    let mut out = Vec::with_capacity(n);
-    for (i, s) in segs.iter().enumerate() {
-        let f = rem.min(s.capacity());
-        rem -= f;
-        if s.len() != f {
-            return Err((
-                "buf-len",
-                format!("segment {i} has length {} but {f} of the {n} reported bytes belong to it (capacity {})", s.len(), s.capacity()),
-            ));
-        }
-        if let Some(j) = tail_damage(s, f) {
-            return Err(("overrun", format!("segment {i} byte {j} modified beyond its {f} filled bytes")));
-        }
-        out.extend_from_slice(&raw(s)[..f]);
-    }
-    Ok(out)
-}
-
-macro_rules! rbuf {
-    ($shape:expr, $cap:expr, |$b:ident| $body:expr) => {
-        match $shape % 4 {
-            0 => {
-                let $b = qvec($cap, 0);
-                let c = $b.capacity();
-                let BufResult(r, v) = $body;
-                (r, v, 0usize, 0usize, c)
-            }
-            1 => {
-                let pl = ($cap / 2).min(3);
-                let $b = qvec($cap, pl);
-                let c = $b.capacity();
-                let BufResult(r, v) = $body;
-                (r, v, 0usize, pl, c)
-            }
-            2 => {
-                let $b = compio_buf::IoBufExt::slice(qvec($cap + 7, 3), 3..3 + $cap);
-                let BufResult(r, s) = $body;
-                (r, s.into_inner(), 3usize, 3usize, $cap)
-            }
-            _ => {
-                let $b = qvec($cap, usize::MAX);
-                let c = $b.capacity();
-                let BufResult(r, v) = $body;
-                (r, v, 0usize, c, c)
-            }
-        }
-    };
-}
-
-fn seg_caps(cap: usize, cuts: &[u16], k: Option<usize>) -> Vec<usize> {
-    let mut caps = cut(cap, cuts);
-    if let Some(k) = k {
-        while caps.len() > k {
-            let l = caps.pop().unwrap();
-            *caps.last_mut().unwrap() += l;
-        }
-        while caps.len() < k {
-            caps.push(0);
-        }
-    }
-    caps
-}
-
-/// `$body` evaluates to `BufResult<R, V>`; result is `(R-result, Vec of segment refs' check)`.
-macro_rules! rvec {
-    ($shape:expr, $cap:expr, $cuts:expr, $n_of:expr, |$b:ident| $body:expr) => {
-        match $shape % 3 {
-            0 => {
-                let caps = seg_caps($cap, $cuts, None);
-                let $b: Vec<Vec<u8>> = caps.iter().map(|c| qvec(*c, 0)).collect();
-                let tot: usize = $b.iter().map(|s| s.capacity()).sum();
-                let BufResult(r, v) = $body;
-                r.map(|x| $n_of(x, tot)).map(|(n, extra)| (check_segs(n, &v.iter().collect::<Vec<_>>()), extra))
-            }
-            1 => {
-                let caps = seg_caps($cap, $cuts, Some(2));
-                let $b: [Vec<u8>; 2] = [qvec(caps[0], 0), qvec(caps[1], 0)];
-                let tot: usize = $b.iter().map(|s| s.capacity()).sum();
-                let BufResult(r, v) = $body;
-                r.map(|x| $n_of(x, tot)).map(|(n, extra)| (check_segs(n, &[&v[0], &v[1]]), extra))
-            }
-            _ => {
-                let caps = seg_caps($cap, $cuts, Some(2));
-                let $b = (qvec(caps[0], 0), (qvec(caps[1], 0),));
-                let tot: usize = $b.0.capacity() + $b.1.0.capacity();
-                let BufResult(r, v) = $body;
-                r.map(|x| $n_of(x, tot)).map(|(n, extra)| (check_segs(n, &[&v.0, &v.1.0]), extra))
-            }
-        }
-    };
-}
-
 /// Control buffers carry the tail pattern too: what the kernel wrote must be
 /// covered by the reported control length. Closes received descriptors.
 fn check_ctl(ctx: &Ctx, c: &Vec<u8>, clen: usize) -> Result<(), RFail> {
@@ -180,6 +55,7 @@ async fn recv_one<T: Conn>(
     kind: RK,
     op: &RecvOp,
     want: usize,
+    remaining: usize,
     pool_len: usize,
 ) -> Result<Got, RecvErr> {
     let cap = op.cap.max(1);
@@ -245,7 +121,7 @@ async fn recv_one<T: Conn>(
                         ctx.floor("stream-managed-recv");
                         return Ok(Got { eof: b.is_empty(), data: b.to_vec() });
                     }
-                    Err(e) if busy(&e) && spins < 2000 => {
+                    Err(e) if busy(&e) && spins < 5000 => {
                         spins += 1;
                         ctx.count("recv_pool_busy", 1);
                         yields(ctx, 1).await;
@@ -269,11 +145,14 @@ async fn recv_one<T: Conn>(
                             ));
                         }
                         // the managed variant reports the control length only through the buffer
+                        if trace() {
+                            eprintln!("anc_managed control len {} first bytes {:02x?}", c.len(), &raw(&c)[..24]);
+                        }
                         check_ctl(ctx, &c, c.len())?;
                         ctx.floor("stream-managed-recv");
                         return Ok(Got { eof: b.is_empty(), data: b.to_vec() });
                     }
-                    Err(e) if busy(&e) && spins < 2000 => {
+                    Err(e) if busy(&e) && spins < 5000 => {
                         spins += 1;
                         ctx.count("recv_pool_busy", 1);
                         yields(ctx, 1).await;
@@ -349,15 +228,16 @@ async fn recv_one<T: Conn>(
                         items += 1;
                         ctx.tick();
                         ctx.floor("stream-multishot-recv");
-                        if !cancelled && items >= op.take.max(1) {
+                        // never wait for more than the sender will ever send
+                        if !cancelled && (items >= op.take.max(1) || data.len() >= remaining.max(1)) {
                             cancelled = true;
                             ct.clone().cancel();
                         }
                     }
-                    Some(Err(e)) if busy(&e) && spins < 2000 => {
+                    Some(Err(e)) if busy(&e) && spins < 5000 => {
                         spins += 1;
                         ctx.count("recv_pool_busy", 1);
-                        ctx.tick();
+                        yields(ctx, 1).await;
                     }
                     Some(Err(e)) if cancelled && is_cancelled(&e) => break false,
                     Some(Err(e)) => return Err(RecvErr::Io(e)),
@@ -395,15 +275,16 @@ async fn recv_one<T: Conn>(
                         items += 1;
                         ctx.tick();
                         ctx.floor("stream-multishot-recv");
-                        if !cancelled && items >= op.take.max(1) {
+                        // never wait for more than the sender will ever send
+                        if !cancelled && (items >= op.take.max(1) || data.len() >= remaining.max(1)) {
                             cancelled = true;
                             ct.clone().cancel();
                         }
                     }
-                    Some(Err(e)) if busy(&e) && spins < 2000 => {
+                    Some(Err(e)) if busy(&e) && spins < 5000 => {
                         spins += 1;
                         ctx.count("recv_pool_busy", 1);
-                        ctx.tick();
+                        yields(ctx, 1).await;
                     }
                     Some(Err(e)) if cancelled && is_cancelled(&e) => break false,
                     Some(Err(e)) => return Err(RecvErr::Io(e)),
@@ -476,7 +357,7 @@ async fn receiver<T: Conn>(
         let want = op.cap.clamp(1, remaining.max(1));
         ds.in_recv.set(Some(kind));
         ctx.kind(kind.name());
-        let r = recv_one(ctx, conn, half.as_deref_mut(), kind, op, want, pool_len).await;
+        let r = recv_one(ctx, conn, half.as_deref_mut(), kind, op, want, remaining, pool_len).await;
         ds.in_recv.set(None);
         ctx.tick();
         if trace() {
@@ -493,6 +374,11 @@ async fn receiver<T: Conn>(
                     format!("C14/stream/{rule}/{}/r={}", ds.tag, kind.name()),
                     format!("{} at stream offset {off}: {what}", kind.name()),
                 );
+                return;
+            }
+            Err(RecvErr::Io(e)) if busy(&e) => {
+                // the pool stayed empty: other pending receives of this program hold its buffers
+                ctx.give_up(format!("buffer pool exhausted during {}", kind.name()));
                 return;
             }
             Err(RecvErr::Io(e)) => {
